@@ -716,3 +716,83 @@ read_command = Contract(
            'self.commands.parse': _rc_parse, 'self._interrupt': _rc_interrupt},
     note='Commands.parse: only ParsingInterrupt escapes it (contracts/total.py); _interrupt through its contract')
 CONTRACTS_READ = [interrupt, read_command]
+
+
+# ---- IMAPConnection.readline: a non-synchronising literal is opaque
+#
+# readline() assembles a command line with its {n+} literals: line, n octets, rest of the line, ...  Whether ANOTHER
+# literal follows is announced by the END OF THE LINE JUST READ; the octets of a literal are data and must never be
+# looked at for that.  Bytes are opaque here; every value carries a ghost tag -- `the line read last`, `a copy of it`, or
+# `accumulated` (something was appended) -- and the obligation sits on every test for the announcement (endswith(b'+}..')
+# and the _literal_plus regex): it looks at the line read last, or at an unextended copy of it.
+BufS = RefS('Buf')
+
+
+def _rl_ghost(st, sc):
+    st.ghost['lines_read'] = VInt(z3.IntVal(0))
+    st.ghost['literals_read'] = VInt(z3.IntVal(0))
+    st.ghost['last_line'] = BufS.fresh('noline')
+
+
+def _rl_readline(ex, frame, e, base=None):
+    _may_raise(ex, IO_RAISES)
+    g = ex.st.ghost
+    ln = BufS.fresh('line')
+    g['last_line'] = ln
+    g['lines_read'] = VInt(_t(g['lines_read']) + 1)
+    return ln
+
+
+def _rl_readexactly(ex, frame, e, base=None):
+    ex.eval_args(e, frame)
+    _may_raise(ex, IO_RAISES)
+    g = ex.st.ghost
+    g['literals_read'] = VInt(_t(g['literals_read']) + 1)
+    return BufS.fresh('literal')
+
+
+def _rl_binop(ex, op, a, b):
+    import ast as _a
+    if isinstance(op, _a.Add) and isinstance(a, VRef) and a.sort.name == 'Buf':
+        return BufS.fresh('accumulated')
+    return None
+
+
+def _marker_test(kind):
+    def model(ex, frame, e, base=None):
+        import ast as _a
+        subject = ex.eval(e.func.value, frame) if kind == 'endswith' else ex.eval(e.args[0], frame)
+        arg = e.args[0].value if kind == 'endswith' and isinstance(e.args[0], _a.Constant) else None
+        if kind == 'search' or (isinstance(arg, bytes) and arg.startswith(b'+}')):
+            ex.oblige(f'{ex.c.name}/literal_announcement_test/looks_only_at_the_line_read_last_never_at_literal_data',
+                      _t(subject) == _t(ex.st.ghost['last_line']))
+        if kind == 'search':
+            return OptS(RefS('Match')).fresh('match')
+        return BOOL.fresh('endswith')
+    return model
+
+
+def _rl_inv(s):
+    out = _t(s.ghost('lines_read')) == _t(s.ghost('literals_read')) + 1
+    try:
+        line = s.line
+    except AttributeError:
+        return VBool(out)           # an implementation without a `line` local: the tests will have to justify themselves
+    return VBool(z3.And(out, _t(line) == _t(s.ghost('last_line'))))
+
+
+readline = Contract(
+    'C06', F, 'IMAPConnection.readline', params=dict(self=CONN), returns=RefS('MemoryView'), ghost_init=_rl_ghost,
+    raises_only=(EOFError,) + IO_RAISES,
+    ensures=[('one_more_line_than_literals', lambda s: VBool(_t(s.ghost('lines_read')) == _t(s.ghost('literals_read')) + 1))],
+    loops={0: Loop(invariant=[('one_more_line_than_literals_and_line_is_the_line_read_last', _rl_inv)],
+                   ghost=['lines_read', 'literals_read', 'last_line'])},
+    calls={'self.reader.readline': _rl_readline, 'self.reader.readexactly': _rl_readexactly,
+           'bytearray': lambda ex, frame, e, base=None: (ex.eval_args(e, frame), BufS.fresh('bytearray'))[1],
+           'buf.endswith': _marker_test('endswith'), 'line.endswith': _marker_test('endswith'),
+           'self._literal_plus.search': _marker_test('search'),
+           'lit_plus.group': _opaque('Bytes'), 'len': lambda ex, frame, e, base=None: INT.fresh('len'),
+           'int': lambda ex, frame, e, base=None: INT.fresh('n'), 'memoryview': _opaque('MemoryView'), 'self._print': _noop},
+    note='bytes are opaque: only WHICH value each test for a literal announcement looks at is decided')
+readline.binop_model = _rl_binop
+CONTRACTS_READ = [interrupt, read_command, readline]
